@@ -139,6 +139,7 @@ SRC_TIES = {
     'C05': 'create_trajectory_row with the _new_* constructors, get_correction, calculate_energy/ogw, spin_drift, calc_stability_coefficient',
     'C08': 'eleven Atmo functions incl. calculate_air_density and get_density_factor_and_mach_for_altitude',
     'C09': 'calculate_curve (first entry, loop body and bounds, closing entry) and the look-up _calculate_by_curve_and_mach_list (bracket, loop condition and body, selection, evaluation)',
+    'C10': '_init_trajectory(shot_info): every scalar attribute it assigns is a function of the configuration and the raw values of the shot alone (= Run.ofShot)',
     'C11': 'THE WHOLE BODY of the while loop of _integrate (= iterate) and the while condition; should_record and clear_current_flag',
     'C12': '_WindSock.__init__/update_cache/vector_for_range/current_vector and Wind.vector',
     'C14': 'linear_interpolation in slices, sectional_density, BCPoint._machC and the Mach of a velocity point (DragModelMultiBC glue matched structurally)',
